@@ -215,6 +215,12 @@ def ds_guards(ctx):
                'with preconditioning_compute_steps == 1 roots are recomputed unconditionally', ctx.loc(fi),
                sample='interval 1 => unconditional refresh')
         continue
+      # no root computation may be reachable off the guard: every root call sits on the taken arm of a step guard, or on
+      # the `interval == 1` arm of the scheduled dispatcher (there every step is a refresh step)
+      stray = _unguarded_roots(slot_t)
+      ctx.ob('C04.K2', fi.short, f'preconditioners: no root computation off the guard [{vtag}]', not stray,
+             f'a root computation is reachable on a step that is not a multiple of the interval: `{show(stray[0], maxdepth=3)[:120] if stray else ""}` '
+             'is neither under `count % interval == 0` nor on the interval == 1 arm', ctx.loc(fi), sample='all root calls guarded')
       inner = [c for c in refresh if parse_mod_guard(c.args[0]) is not None]
       ctx.ob('C04.K2', fi.short, f'preconditioners: guarded refresh [{vtag}]', bool(inner),
              'the root computation is not under a `count % interval == 0` guard', ctx.loc(fi),
@@ -252,7 +258,84 @@ def ds_guards(ctx):
             ctx.ob('C04.K3', fi.short, f'{s_}: pass-through', pure_projection(c.args[s_], {'states', 'state'}) and s_ in show(c.args[s_]),
                    f'the preconditioner refresh must not touch `{s_}`', ctx.loc(fi), trivial=True, sample=f'{s_} = state.{s_}')
   ctx.need('C04.K2', n_guards, 6, 'refresh guards in Distributed Shampoo')
+  dispatcher(ctx)
   sharded_metrics(ctx)
+
+
+def _is_interval_one(c):
+  """c is `<interval> == 1` (canonical polarity) for a preconditioning interval value"""
+  if c.op != 'cmp' or c.args[0] != '==':
+    return False
+  a, b = c.args[1], c.args[2]
+  if is_const(a, 1):
+    a, b = b, a
+  return is_const(b, 1) and 'preconditioning_compute_steps' in show(a, maxdepth=6)
+
+
+def _unguarded_roots(t):
+  out = []
+  seen = set()
+
+  def rec(x, guarded):
+    if (x, guarded) in seen:
+      return
+    seen.add((x, guarded))
+    if x.op == 'call' and x.args[0].op == 'fn' and x.args[0].args[0].split('.')[-1] in D.ROOT_CALLS and not guarded:
+      out.append(x)
+    if x.op in ('cond', 'ite') and len(x.args) == 3:
+      c = x.args[0]
+      if parse_mod_guard(c) is not None or _is_interval_one(c):
+        rec(c, guarded)
+        rec(x.args[1], True)
+        rec(x.args[2], guarded)
+        return
+    for a in x.args:
+      if isinstance(a, T):
+        rec(a, guarded)
+      elif isinstance(a, tuple):
+        for y in a:
+          if isinstance(y, T):
+            rec(y, guarded)
+          elif isinstance(y, tuple):
+            for z in y:
+              if isinstance(z, T):
+                rec(z, guarded)
+  rec(t, False)
+  return out
+
+
+def dispatcher(ctx):
+  """K2d: `_update_preconditioners_fn` runs the every-step function exactly when the interval is 1 and the guarded
+  function otherwise, in all four (quantized, scheduled) modes."""
+  m = ctx.model
+  fi = m.func(D.MOD, '_update_preconditioners_fn')
+  ctx.analysed(fi)
+  P = lambda n: sym('param', fi.short, n)
+  for q in (True, False):
+    for sch in (True, False):
+      ev = evaluator(m, decide=Decider(truth={'quantized': q, 'scheduled': sch}))
+      r = ev.run(fi)
+      ctx.evaluations += 1
+      if r.op != 'tuple':
+        raise AnalysisError('_update_preconditioners_fn does not return a tuple')
+      n = 0
+      for i, x in enumerate(r.args):
+        if is_const(x, None):
+          continue
+        n += 1
+        sa = select_arms(x)
+        ok = sa is not None and sa[1].op == 'cmp' and sa[1].args[0] == '==' and \
+            ((sa[1].args[1] is P('steps') and is_const(sa[1].args[2], 1)) or (sa[1].args[2] is P('steps') and is_const(sa[1].args[1], 1)))
+        if ok:
+          every, gated = sa[2], sa[3]
+          ok = any(y.op == 'call' and y.args[0] is P('update_preconditioners_every_fn') for y in walk(every)) and \
+              not any(y.op == 'call' and y.args[0] is P('update_preconditioners_fn') for y in walk(every)) and \
+              any(y.op == 'call' and y.args[0] is P('update_preconditioners_fn') for y in walk(gated)) and \
+              not any(y.op == 'call' and y.args[0] is P('update_preconditioners_every_fn') for y in walk(gated))
+        ctx.ob('C04.K2', fi.short, f'dispatch on interval == 1 [quantized={q},scheduled={sch},out={i}]', ok,
+               f'the unguarded every-step refresh may run only when the interval is exactly 1, the guarded one otherwise; got `{show(x, maxdepth=4)[:200]}`',
+               ctx.loc(fi), sample='steps == 1 ? every_fn() : guarded_fn()')
+      ctx.need('C04.K2', n, 2, 'outputs of _update_preconditioners_fn')
 
 
 def _first(t):
